@@ -288,6 +288,25 @@ def sum_rules(chk, repo, rid):
         chk.ob(rid, w, f'{fi.name}: the scale alpha multiplies the second operand on exactly one site of every chain, in the '
                f'single-site and the multi-site branch', ok, f'{len(alpha_uses)} uses of alpha', key=f'{rid}|{q}|alpha')
         n += 1
+        # boundary labels: label k of the result is label k of the first operand (a copy), for k = 0 and k = L
+        single = [s_ for s_ in ast.walk(fi.node) if isinstance(s_, ast.If) and norm(s_.test) == 'L == 1']
+        for branch, want in ((single[0].body if single else [], {'0': '0', '1': '1'}),
+                             (single[0].orelse if single else [], {'0': '0', '-1': '-1'})):
+            stores = {}
+            for s_ in ast.walk(ast.Module(body=list(branch), type_ignores=[])):
+                if isinstance(s_, ast.Assign) and isinstance(s_.targets[0], ast.Subscript) and \
+                        norm(s_.targets[0].value) == f'{res}.qD' and not isinstance(s_.value, ast.Call) or \
+                        (isinstance(s_, ast.Assign) and isinstance(s_.targets[0], ast.Subscript) and
+                         norm(s_.targets[0].value) == f'{res}.qD' and norm(strip_copies(s_.value)).startswith(f'{x0}.qD[')):
+                    k = norm(s_.targets[0].slice)
+                    srcx = strip_copies(s_.value)
+                    if isinstance(srcx, ast.Subscript) and norm(srcx.value) in (f'{x0}.qD', f'{x1}.qD'):
+                        stores[k] = (norm(srcx.slice), s_)
+            okb = all(k in stores and stores[k][0] == v for k, v in want.items())
+            tag = 'single-site' if want.get('1') else 'multi-site'
+            chk.ob(rid, w, f'{fi.name} ({tag} branch): boundary label k of the result is boundary label k of the operands '
+                   f'(k in {sorted(want)})', okb, f'{ {k: v[0] for k, v in stores.items()} }', key=f'{rid}|{q}|boundary|{tag}')
+            n += 1
         # boundary labels copied from the first operand and asserted equal
         asserts = {norm(a.test).replace(' ', '') for a in ast.walk(fi.node) if isinstance(a, ast.Assert)}
         need = {f'np.array_equal({x0}.qD[0],{x1}.qD[0])', f'np.array_equal({x0}.qD[-1],{x1}.qD[-1])',
